@@ -380,6 +380,34 @@ Proof.
            Wobj Ee Hd2).
 Qed.
 
+(* ---------- 6. the class D33 is inhabited by a decodable input ---------- *)
+
+(* the D33 input as a file: a spinner and a hold with start 2^-43 and end 1024 + 2^-42.  Both decoded
+   objects are in [d33_object] (and in no other class): the map is excluded by
+   [objects_in_classes], and rightly so -- the durations read back from the written end differ by
+   one ulp ([times_ok_refuted]). *)
+Definition d33_text : str :=
+  join_lines ["osu file format v14"; "[General]"; "Mode: 3";
+              "[TimingPoints]"; "0,500,4,1,0,100,1,0";
+              "[HitObjects]";
+              "256,192,0.00000000000011368683772161603,12,0,1024.0000000000002";
+              "256,192,0.00000000000011368683772161603,128,0,1024.0000000000002:0:0:0:0:"]%string.
+
+Lemma d33_decoded_witness :
+  match decode_beatmap (dist_real lm0) (lines_of_text d33_text) with
+  | Done m =>
+      let objs := hov_hit_objects (bmv_ho m) in
+      map (fun h => kind_tag (h_kind h)) objs = [2; 3] /\
+      map (fun h => D.bits (h_start h)) objs = [4413527634823086080; 4413527634823086080] /\
+      map (fun h => match h_kind h with KSpinner s => D.bits (sp_duration s) | KHold hd => D.bits (hd_duration hd) | _ => 0 end) objs
+        = [4652218415073722368; 4652218415073722368] /\
+      map d33_object objs = [true; true] /\
+      map d30_class objs = [false; false] /\ map d26_class objs = [false; false] /\
+      objects_in_classes lm0 m = true
+  | _ => False
+  end.
+Proof. vm_compute. repeat split; reflexivity. Qed.
+
 Print Assumptions decoded_slider_inv.
 Print Assumptions decoded_obj_classes.
 Print Assumptions round_trip_decoded_map_classes.
